@@ -71,7 +71,9 @@ pub fn diff_delivered(d: &Delivered, r: &RefRequest) -> Option<String> {
     }
     let uri = String::from_utf8_lossy(&r.uri).to_string();
     // the URI has no public accessor; its Debug rendering must contain the verbatim string
-    if !d.uri_dbg.contains(&format!("{:?}", uri)) {
+    // (only when the rendering has the derived shape `Uri { string: "..." }`; a hand-written
+    // Debug is not judged)
+    if d.uri_dbg.contains("string: \"") && !d.uri_dbg.contains(&format!("{:?}", uri)) {
         return Some(format!("uri {} does not show {:?}", d.uri_dbg, uri));
     }
     if d.abs_path != ref_abs_path(&uri) {
